@@ -316,6 +316,29 @@ CHECKS["C01"] = dict(
               "neighbour predicate, replay on the compiled NNPS",
     design="2/C01")
 
+CHECKS["C17"] = dict(
+    level="other",
+    text="The Cython sources of NNPS.spatially_order_particles and "
+         "LinkedListNNPS.get_spatially_ordered_indices are lowered to Python "
+         "and executed after the lowered update/binning on exact-real "
+         "positions of n<=3 (4 thorough) particles (dim 1, 2) carrying a "
+         "plain and a stride-3 property and concrete Local/Ghost tag "
+         "patterns; every cell assignment is enumerated by the path "
+         "explorer and on each path: the index list is a permutation of "
+         "0..n-1, every particle (matched by identity) keeps all its values "
+         "together, none is lost or duplicated, and Local particles occupy "
+         "the first num_real_particles slots. The index-copy loops of the "
+         "z-order, stratified-SFC and octree variants and "
+         "Solver.reorder_particles (reorder each array, then update) are "
+         "executed too.",
+    note="Cython->Python lowering and cyarray/ParticleArray models trusted; "
+         "pids of the SFC/octree variants are a permutation by contract; "
+         "cell size 1, coordinates in [0,3]",
+    technique="symbolic execution of Cython source lowered to Python with "
+              "solver-enumerated cell assignments, replay on the compiled "
+              "NNPS",
+    design="2/C17")
+
 NOT_APPLICABLE = {
     "C05": "whole-application runs of compiled OpenMP code compared across "
            "configurations up to summation order: no unit a solver can "
